@@ -388,6 +388,9 @@ func runBatch(bi *buildInfo, chk *meta.Check, b meta.Batch, n int, batchSeed uin
 
 func loadFindings() findingsFile {
 	var ff findingsFile
+	if os.Getenv("KG_IGNORE_FINDINGS") != "" {
+		return ff // maintenance: re-record the history of a listed finding
+	}
 	b, err := os.ReadFile(filepath.Join(verifDir, "known_findings.json"))
 	if err == nil {
 		if err := json.Unmarshal(b, &ff); err != nil {
